@@ -35,6 +35,13 @@ def cmdHeadmap (j : Json) : Except String Json := do
 def decMapping (j : Json) : Except String (Mapping α) :=
   listOf (pairOf getInt (listOf (pairOf getNat (Codec.dec (α := α))))) j
 
+/-- `get_connected_components` on a bare level → series mapping (crossing values irrelevant) -/
+def cmdComponents (j : Json) : Except String Json := do
+  let m ← decMapping (α := α) (← field j "mapping")
+  pure (Json.mkObj [
+    ("components", jList (fun g : List Int × List Nat => Json.arr #[jList jInt g.1, jList jNat g.2]) (components m)),
+    ("main", jList jInt (mainComponent m))])
+
 def cmdSolve (j : Json) : Except String Json := do
   let m ← decMapping (α := α) (← field j "mapping")
   match solveOffsets (dropSingletons m) with
